@@ -166,7 +166,9 @@ def r5_per_layer_effect(run, tree):
     from . import map_folds as mf
     hf.check_hist2d(run, tree, aspects=("layers",))
     hf.check_hist2d_history(run, tree)
+    hf.check_hist2d_layer_options(run, tree)
     mf.check_map(run, tree, aspects=("rendered",))
+    mf.check_map_history(run, tree)
 
 
 RULES = [r1_immutability, r2_precedence, r3_hidden_state, r4_no_bypass, r5_per_layer_effect]
